@@ -10,6 +10,7 @@ Ops:
   boffset <b> <offKey> <startKey> <endKey>  bmap <b>  bremap <b>  bunmap <b>
   rnew <csv>            rset <x> <col>      runion|rintersect|rdifference|rxor <a> <b>   rmerge <x> <y>
   fopen <shard>   fset <r> <c>   fclear <r> <c>   frow <r>   fsetrow <r> <y>   fclearrow <r>
+  fimport <0|1 clear> <vals>     (importRoaring; vals = items a | a-b | a-b/step, fragment positions)
   fsnap   fclose   freopen
 `#spec` is the value semantics of Spec.lean.
 -/
@@ -23,6 +24,48 @@ structure St where
   w : World := {}
   s : Spec.SWorld := {}
 
+/-- `a`, `a-b`, `a-b/s` -/
+def parseItem (s : String) : Option (List Nat) :=
+  match s.splitOn "-" with
+  | [a] => a.toNat?.map (fun x => [x])
+  | [a, b] =>
+      match b.splitOn "/" with
+      | [b] => do
+          let lo ← a.toNat?
+          let hi ← b.toNat?
+          pure ((List.range (hi + 1 - lo)).map (· + lo))
+      | [b, st] => do
+          let lo ← a.toNat?
+          let hi ← b.toNat?
+          let st ← st.toNat?
+          if st = 0 then none else pure ((List.range ((hi - lo) / st + 1)).map (fun i => lo + i * st))
+      | _ => none
+  | _ => none
+
+def parseVals (s : String) : Option (List Nat) :=
+  if s = "-" || s = "" then some [] else ((s.splitOn ",").mapM parseItem).map List.flatten
+
+/-- arithmetic runs of length ≥ 4 are printed `a-b` / `a-b/step` -/
+def runEnd (step : Nat) : Nat → List Nat → Nat × List Nat × Nat
+  | last, [] => (last, [], 0)
+  | last, y :: ys => if y = last + step then let r := runEnd step y ys; (r.1, r.2.1, r.2.2 + 1) else (last, y :: ys, 0)
+
+def showRuns : Nat → List Nat → List String
+  | 0, _ => []
+  | _, [] => []
+  | _, [x] => [toString x]
+  | fuel + 1, x :: y :: rest =>
+      if y ≤ x then toString x :: showRuns fuel (y :: rest)
+      else
+        let step := y - x
+        let r := runEnd step y rest
+        -- r.2.2 + 2 elements in the run x, y, …, r.1
+        if r.2.2 + 2 ≥ 4 then
+          (toString x ++ "-" ++ toString r.1 ++ (if step = 1 then "" else "/" ++ toString step)) :: showRuns fuel r.2.1
+        else toString x :: showRuns fuel (y :: rest)
+
+def showVals (xs : List Nat) : String := "[" ++ " ".intercalate (showRuns (xs.length + 1) xs) ++ "]"
+
 def parseBin : String → Option BinOp
   | "union" => some .union
   | "intersect" => some .intersect
@@ -32,7 +75,7 @@ def parseBin : String → Option BinOp
 
 def parseOp (ws : List String) : Option Op :=
   match ws with
-  | ["bnew", v] => (csvNats? v).map .bnew
+  | ["bnew", v] => (parseVals v).map .bnew
   | ["badd", b, v] => do pure (.badd (← b.toNat?) (← v.toNat?))
   | ["bremove", b, v] => do pure (.bremove (← b.toNat?) (← v.toNat?))
   | ["bclone", b] => b.toNat?.map .bclone
@@ -41,7 +84,7 @@ def parseOp (ws : List String) : Option Op :=
   | ["bremap", b] => b.toNat?.map .bremap
   | ["bunmap", b] => b.toNat?.map .bunmap
   | ["boffset", b, o, s, e] => do pure (.boffset (← b.toNat?) (← o.toNat?) (← s.toNat?) (← e.toNat?))
-  | ["rnew", v] => (csvNats? v).map .rnew
+  | ["rnew", v] => (parseVals v).map .rnew
   | ["rset", x, c] => do pure (.rset (← x.toNat?) (← c.toNat?))
   | ["rmerge", x, y] => do pure (.rmerge (← x.toNat?) (← y.toNat?))
   | ["fopen", s] => s.toNat?.map .fopen
@@ -50,6 +93,7 @@ def parseOp (ws : List String) : Option Op :=
   | ["frow", r] => r.toNat?.map .frow
   | ["fsetrow", r, y] => do pure (.fsetrow (← r.toNat?) (← y.toNat?))
   | ["fclearrow", r] => r.toNat?.map .fclearrow
+  | ["fimport", cl, v] => do pure (.fimport (cl == "1") (← parseVals v))
   | ["fsnap"] => some .fsnap
   | ["fclose"] => some .fclose
   | ["freopen"] => some .freopen
@@ -60,14 +104,14 @@ def parseOp (ws : List String) : Option Op :=
   | _ => none
 
 def showIdx (pfx : String) (vals : List (List Nat)) : List String :=
-  vals.mapIdx (fun i v => s!"{pfx}{i}={showNats v}")
+  vals.mapIdx (fun i v => s!"{pfx}{i}={showVals v}")
 
 def dumpModel (w : World) : String :=
   let bs := showIdx "B" (w.bs.map (fun b => w.h.valuesOf b))
   let rs := showIdx "R" (w.rows.map (fun segs => w.rowCols segs))
   let f := match w.frag with
     | none => "F=-"
-    | some f => if f.isOpen then "F=" ++ showNats (w.h.valuesOf f.storage) else "F=closed"
+    | some f => if f.isOpen then "F=" ++ showVals (w.h.valuesOf f.storage) else "F=closed"
   " ".intercalate (bs ++ rs ++ [f, if w.h.isoCheck then "iso=ok" else "iso=bad"])
 
 def dumpSpec (s : Spec.SWorld) : String :=
@@ -75,7 +119,7 @@ def dumpSpec (s : Spec.SWorld) : String :=
   let rs := showIdx "R" s.rows
   let f := match s.frag with
     | none => "F=-"
-    | some f => if f.isOpen then "F=" ++ showNats f.bits else "F=closed"
+    | some f => if f.isOpen then "F=" ++ showVals f.bits else "F=closed"
   " ".intercalate (bs ++ rs ++ [f, "iso=ok"])
 
 /-- every container the read-back touches -/
